@@ -53,6 +53,7 @@ type mockFactory struct {
 	nconn   int
 	trs     []*mock.Transport
 	syncRet map[int]bool
+	refuse  map[int]int // url -> number of Listen calls of the factory that still fail (address in use …)
 }
 
 func (f *mockFactory) connID(t transport.Transport) int {
@@ -71,6 +72,11 @@ func (f *mockFactory) Connect(o *transport.Options) (transport.Transport, error)
 func (f *mockFactory) Listen(o *transport.Options) (transport.Acceptor, error) {
 	var k int
 	fmt.Sscanf(o.Address.Host, "l%d", &k)
+	if f.refuse[k] > 0 {
+		f.refuse[k]--
+		f.c.Emit("acc:refuse:%d", k)
+		return nil, errors.New("mock: address already in use")
+	}
 	a := &mockAcceptor{f: f, k: k, n: len(f.all) + 1}
 	f.accs[k] = a
 	f.all = append(f.all, a)
@@ -90,12 +96,19 @@ func (b blockingReader) HandleRead(ctx netty.InboundContext, m netty.Message) {
 }
 
 type lifeProbe struct {
-	c   *rt.Controller
-	cid *int
+	c         *rt.Controller
+	cid       *int
+	handshake bool // the active handler waits for a greeting of the peer (which never comes, or a hang-up)
 }
 
 func (p lifeProbe) HandleActive(ctx netty.ActiveContext) {
 	p.c.Emit("active:%d", ctx.Channel().ID())
+	if p.handshake {
+		buf := make([]byte, 1)
+		if _, err := ctx.Channel().Transport().Read(buf); err != nil {
+			return // closed or hung up during the handshake
+		}
+	}
 	ctx.HandleActive()
 }
 func (p lifeProbe) HandleInactive(ctx netty.InactiveContext, ex netty.Exception) {
@@ -107,12 +120,13 @@ func (p lifeProbe) HandleException(ctx netty.ExceptionContext, ex netty.Exceptio
 }
 
 type c13Op struct {
-	kind string // listen | relisten | dial | waitdial | hangup | lclose | shutdown
+	kind string // listen | flisten (the factory refuses once, Async is retried on the same listener) | relisten | dial | waitdial | hangup | lclose | shutdown
 	k    int
 }
 
 type c13Scenario struct {
-	threads [][]c13Op
+	threads   [][]c13Op
+	handshake bool
 }
 
 func (o c13Op) String() string {
@@ -123,11 +137,15 @@ func (o c13Op) String() string {
 }
 
 func genC13(rng *rand.Rand) *c13Scenario {
-	sc := &c13Scenario{}
+	sc := &c13Scenario{handshake: rng.Intn(4) == 0}
 	nl := 1 + rng.Intn(2)
 	var t1 []c13Op
 	for k := 0; k < nl; k++ {
-		t1 = append(t1, c13Op{"listen", k})
+		if rng.Intn(5) == 0 {
+			t1 = append(t1, c13Op{"flisten", k})
+		} else {
+			t1 = append(t1, c13Op{"listen", k})
+		}
 	}
 	sc.threads = append(sc.threads, t1)
 	var t2 []c13Op
@@ -166,14 +184,14 @@ func runC13Scenario(sc *c13Scenario, strat rt.Strategy) *rt.Controller {
 	c.MaxStep = 4000
 	netty.NvRT = c
 	defer func() { netty.NvRT = nil }()
-	f := &mockFactory{c: c, accs: map[int]*mockAcceptor{}, syncRet: map[int]bool{}}
+	f := &mockFactory{c: c, accs: map[int]*mockAcceptor{}, syncRet: map[int]bool{}, refuse: map[int]int{}}
 	bs := netty.NewBootstrap(
 		netty.WithTransport(f),
 		netty.WithExecutor(ctlExec{c}),
 		netty.WithChannel(netty.NewChannel()),
 		netty.WithChildInitializer(func(ch netty.Channel) {
 			c.Emit("chan:%d:%d", ch.ID(), f.connID(ch.Transport()))
-			ch.Pipeline().AddLast(blockingReader{c}, lifeProbe{c: c})
+			ch.Pipeline().AddLast(blockingReader{c}, lifeProbe{c: c, handshake: sc.handshake})
 		}),
 	)
 	listeners := map[int]netty.Listener{} // the FIRST listener object created for url k (closed twice by the reuse scenario)
@@ -188,8 +206,11 @@ func runC13Scenario(sc *c13Scenario, strat rt.Strategy) *rt.Controller {
 				}
 				c.Emit("begin:%d:%s", i, op.String())
 				switch op.kind {
-				case "listen", "relisten":
+				case "listen", "relisten", "flisten":
 					k := op.k
+					if op.kind == "flisten" {
+						f.refuse[k] = 1
+					}
 					g := gen[k]
 					gen[k]++
 					var l netty.Listener
@@ -208,7 +229,9 @@ func runC13Scenario(sc *c13Scenario, strat rt.Strategy) *rt.Controller {
 						listeners[k] = l
 					}
 					c.Emit("listener:%d:%d@%p", k, g, l)
-					l.Async(func(err error) {
+					var done func(err error)
+					retried := false
+					done = func(err error) {
 						e := "other"
 						switch {
 						case err == nil:
@@ -216,9 +239,15 @@ func runC13Scenario(sc *c13Scenario, strat rt.Strategy) *rt.Controller {
 						case errors.Is(err, netty.ErrServerClosed):
 							e = "closed"
 						}
-						f.syncRet[k] = true
 						c.Emit("sync:ret:%d:%d:%s", k, g, e)
-					})
+						if op.kind == "flisten" && e == "other" && !retried {
+							retried = true
+							l.Async(done) // the address was busy: try again on the same listener
+							return
+						}
+						f.syncRet[k] = true
+					}
+					l.Async(done)
 				case "dial":
 					k := op.k
 					c.Await("dial", func() bool { a := f.accs[k]; return (a != nil && !a.closed) || f.syncRet[k] })
@@ -284,6 +313,7 @@ func runC13Scenario(sc *c13Scenario, strat rt.Strategy) *rt.Controller {
 }
 
 func printC13(sc *c13Scenario, c *rt.Controller) {
+	emit("C13 cfg handshake=%d", b2i(sc.handshake))
 	for ti, ops := range sc.threads {
 		ss := make([]string, len(ops))
 		for i, o := range ops {
